@@ -51,7 +51,7 @@ Theorem C05_clone_is_latest : forall ntab actors sched i a t, wf_system ntab act
   let s := reach ntab actors sched in
   nth_error (s_actors s) i = Some a -> In t (a_locks a) ->
   (a_pc a = PRootLoaded -> nth_error (a_entries a) t = nth_error (s_root s) t) /\
-  (a_pc a = PCommitIdx \/ a_pc a = PRootLocked \/ a_pc a = PAbortBefore ->
+  (a_pc a = PCommitIdx \/ a_pc a = PRootLocked \/ a_pc a = PCommitLoaded \/ a_pc a = PAbortBefore ->
    exists v e, nth_error (s_root s) t = Some v /\ nth_error (a_entries a) t = Some e /\
                forall x, In x (tv_ids e) <-> (x = a_id a /\ In t (writes_of a)) \/ In x (tv_ids v)).
 Proof. exact clone_is_latest_reachable. Qed.
@@ -61,7 +61,7 @@ Print Assumptions C05_clone_is_latest.
 Theorem C05_sees_all_committed : forall ntab actors sched i a j b t, wf_system ntab actors ->
   let s := reach ntab actors sched in
   nth_error (s_actors s) i = Some a -> In t (a_locks a) ->
-  a_pc a = PRootLoaded \/ a_pc a = PCommitIdx \/ a_pc a = PRootLocked \/ a_pc a = PAbortBefore ->
+  a_pc a = PRootLoaded \/ a_pc a = PCommitIdx \/ a_pc a = PRootLocked \/ a_pc a = PCommitLoaded \/ a_pc a = PAbortBefore ->
   nth_error (s_actors s) j = Some b -> committed b = true -> In t (writes_of b) ->
   exists e, nth_error (a_entries a) t = Some e /\ In (a_id b) (tv_ids e).
 Proof. exact sees_all_committed_reachable. Qed.
@@ -74,16 +74,17 @@ Theorem C05_no_lost_write : forall ntab actors s1 s2 t v x, wf_system ntab actor
 Proof. exact no_lost_write_reachable. Qed.
 Print Assumptions C05_no_lost_write.
 
-(* REGISTRATION KEEPS ENTRIES / what a step can do to the root: nothing; or (registrar) append one fresh
-   entry; or (root store of a committing writer) keep the CURRENT length, keep the current entry of every
+(* REGISTRATION KEEPS ENTRIES / what a step can do to the root: nothing; or (registrar's store step, pc PRegLoaded)
+   append one fresh entry to the CURRENT root; or (root store of a committing writer, pc PCommitLoaded) keep the
+   CURRENT length, keep the current entry of every
    table outside its lock set - in particular of tables registered after it loaded the root - and add
    exactly its own id to the tables of its lock set that it writes *)
 Theorem C05_root_step_cases : forall ntab actors sched i, wf_system ntab actors ->
   let s := reach ntab actors sched in
   s_root (step s i) = s_root s \/
-  (exists a, nth_error (s_actors s) i = Some a /\ a_kind a = KRegistrar /\ a_pc a = PRegLocked /\
+  (exists a, nth_error (s_actors s) i = Some a /\ a_kind a = KRegistrar /\ a_pc a = PRegLoaded /\
              s_root (step s i) = s_root s ++ [mkV [] (s_nextw s) None]) \/
-  (exists a, nth_error (s_actors s) i = Some a /\ a_pc a = PRootLocked /\ commits a = true /\
+  (exists a, nth_error (s_actors s) i = Some a /\ a_pc a = PCommitLoaded /\ commits a = true /\
      length (s_root (step s i)) = length (s_root s) /\
      (forall t, ~ In t (a_locks a) -> nth_error (s_root (step s i)) t = nth_error (s_root s) t) /\
      (forall t v, In t (a_locks a) -> nth_error (s_root s) t = Some v ->
@@ -98,4 +99,96 @@ Proof.
   split.
   - intros ik [<-|[<-|[<-|[]]]]; cbn; repeat split; try (intros x Hx; cbn in Hx; intuition (subst; cbn; auto)).
   - cbn. repeat constructor; cbn; intuition discriminate.
+Qed.
+
+(* ==== the root read-modify-write inside db.mu (DB/Invariants.v inv_cur, DB/NoRootLock.v) ===========
+   Commit loads the root inside db.mu (`currentRoot := *db.root.Load()`, step at pc PRootLocked, hook point
+   "commit-root-loaded": a_cur := s_root) and stores the merge into THAT root at the next step (pc PCommitLoaded);
+   registerTable likewise (`slices.Clone( *db.root.Load())`, pc PRegLocked, hook point "register-root-loaded"; store of
+   a_cur ++ [new entry] at pc PRegLoaded). *)
+From SV Require Import DB.NoRootLock.
+
+(* THE LOADED ROOT IS THE CURRENT ROOT: in every reachable state an actor between its root load inside db.mu and
+   its root store has loaded exactly the current committed root (nobody stored in between) *)
+Theorem C05_loaded_root_is_current : forall ntab actors sched i a, wf_system ntab actors ->
+  let s := reach ntab actors sched in
+  nth_error (s_actors s) i = Some a ->
+  (a_pc a = PCommitLoaded \/ a_pc a = PRegLoaded) -> a_cur a = s_root s.
+Proof.
+  intros ntab actors sched i a [Hwf _] s Ha Hp.
+  exact (proj1 (loaded_root_is_current_reachable ntab actors sched i a Hwf Ha Hp)).
+Qed.
+Print Assumptions C05_loaded_root_is_current.
+
+(* ... because it holds db.mu all the while (and db.mu is exclusive: C10_lock_invariant) *)
+Theorem C05_loaded_holds_root_lock : forall ntab actors sched i a, wf_actors ntab actors ->
+  let s := reach ntab actors sched in
+  nth_error (s_actors s) i = Some a ->
+  (a_pc a = PCommitLoaded \/ a_pc a = PRegLoaded) -> a_cur a = s_root s /\ s_rlock s = Some i /\ rholds a = true.
+Proof.
+  intros ntab actors sched i a Hwf s Ha Hp.
+  destruct (loaded_root_is_current_reachable ntab actors sched i a Hwf Ha Hp) as [H1 H2].
+  split; [exact H1|]. split; [exact H2|]. unfold rholds. destruct Hp as [-> | ->]; reflexivity.
+Qed.
+Print Assumptions C05_loaded_holds_root_lock.
+
+(* non-vacuity: a registrar registered a second table after the writer cloned the root and before its Commit took
+   db.mu: at PCommitLoaded the loaded root has 2 entries (the clone 1) and is the current root; a registrar at PRegLoaded *)
+Example C05_loaded_root_nonvacuous :
+  let acts := [(1%N, KWriter [0] [0] true [] []); (2%N, KRegistrar)] in
+  wf_system 1 acts /\
+  (let s := reach 1 acts (repeat 0 6 ++ repeat 1 5 ++ [0; 0]) in
+   exists a, nth_error (s_actors s) 0 = Some a /\ a_pc a = PCommitLoaded /\
+     length (a_entries a) = 1 /\ length (a_cur a) = 2 /\ a_cur a = s_root s /\ s_rlock s = Some 0) /\
+  (let s := reach 1 acts (repeat 1 3) in
+   exists a, nth_error (s_actors s) 1 = Some a /\ a_pc a = PRegLoaded /\ a_cur a = s_root s /\ s_rlock s = Some 1).
+Proof.
+  split; [split|split].
+  - intros ik [<-|[<-|[]]]; cbn; repeat split; try (intros x Hx; cbn in Hx; intuition (subst; cbn; auto)).
+  - cbn. repeat constructor; cbn; intuition discriminate.
+  - exact loaded_root_nonvacuous.
+  - exact loaded_root_nonvacuous_reg.
+Qed.
+
+(* REFUTATION (seeded change S2-C05-3: db.mu moved into the DB handle, i.e. a per-handle mutex that excludes nobody).
+   `step_norlock s i = step (free_rlock s) i` is the model's step with the root lock's exclusion removed (it agrees with
+   `step` whenever db.mu is free: C05_step_norlock_agrees; actors about to take db.mu are always enabled). Then two
+   writers on DISJOINT tables (writer 1: table 0, writer 2: table 1) lose a committed write: both load the root, writer 1
+   stores, writer 2 merges into its stale root and stores. At the end both have committed and finished, and the id of
+   writer 1 is missing from the committed entry of table 0 (contrast C05_no_lost_write / C02_visible_iff). *)
+Theorem C05_step_norlock_agrees : forall s i, s_rlock s = None -> step_norlock s i = step s i.
+Proof. exact step_norlock_agrees. Qed.
+Print Assumptions C05_step_norlock_agrees.
+
+Theorem C05_lost_write_without_root_lock_refuted :
+  exists sched, let s := run_norlock (init_st 2 lw_acts) sched in
+    (forall i a, nth_error (s_actors s) i = Some a -> a_pc a = PDone /\ committed a = true) /\
+    (exists a v, nth_error (s_actors s) 0 = Some a /\ In 0 (writes_of a) /\
+                 nth_error (s_root s) 0 = Some v /\ ~ In (a_id a) (tv_ids v)) /\
+    map tv_ids (s_root s) = [[]; [2%N]].
+Proof. exact lost_write_without_root_lock. Qed.
+Print Assumptions C05_lost_write_without_root_lock_refuted.
+
+(* ... and the invariant above is what breaks: a writer at PCommitLoaded whose loaded root is no longer current *)
+Theorem C05_loaded_root_stale_without_root_lock_refuted :
+  exists sched i a, let s := run_norlock (init_st 2 lw_acts) sched in
+    nth_error (s_actors s) i = Some a /\ a_pc a = PCommitLoaded /\ a_cur a <> s_root s.
+Proof. exact loaded_root_stale_without_root_lock. Qed.
+Print Assumptions C05_loaded_root_stale_without_root_lock_refuted.
+
+(* ... a table registration is lost the same way (the writer's stale root is shorter than the stored one) *)
+Theorem C05_lost_registration_without_root_lock_refuted :
+  exists sched, let s := run_norlock (init_st 1 lr_acts) sched in
+    map a_pc (s_actors s) = [PRootStored; PRegStored] /\ length (s_root s) = 1 /\ length (s_tlock s) = 2.
+Proof. exact lost_registration_without_root_lock. Qed.
+Print Assumptions C05_lost_registration_without_root_lock_refuted.
+
+(* the witness system is well-formed, its writers' table sets are disjoint, and WITH db.mu the same schedule (writer 2's
+   root-lock step is disabled while writer 1 holds db.mu) loses nothing *)
+Example C05_lost_write_witness_wf :
+  wf_system 2 lw_acts /\ (forall t, In t [0] -> ~ In t [1]) /\
+  (let s := run (init_st 2 lw_acts) (lw_sched ++ [1; 1; 1]) in
+   map a_pc (s_actors s) = [PDone; PDone] /\ map tv_ids (s_root s) = [[1%N]; [2%N]]).
+Proof.
+  split; [exact lw_wf|]. split; [exact lw_disjoint|]. vm_compute. split; reflexivity.
 Qed.
